@@ -82,6 +82,7 @@ def actOf (env : Env) (checked : Bool) : Tok → Act
   | .paren => .paren
   | .attrSum => .sum
   | .attrSkip _ _ => .nop
+  | .attrChoose _ => .nop
   | .func _ iftab => .func iftab ((Gen.ftabArgc[iftab]?).getD 0) checked
   | .funcVar _ argc iftab => .func iftab argc checked
 
@@ -96,6 +97,7 @@ def Expr.arityOk : Expr → Prop
   | .bin _ a b => a.arityOk ∧ b.arityOk
   | .func _ iftab args => iftab < Gen.ftabLen ∧ Gen.ftabArgc[iftab]? = some args.length ∧ argsOk args
   | .funcVar _ iftab args => iftab < Gen.ftabLen ∧ argsOk args
+  | .inert t e => t.isInert = true ∧ e.arityOk
   | _ => True
 def argsOk : List Expr → Prop
   | [] => True
@@ -270,6 +272,13 @@ theorem machine_correct (env : Env) (chk : Bool) : ∀ (e : Expr), e.arityOk →
     simp only [runActs, actOf]
     rw [applyAct_func env iftab chk args buf stk h'.1]
     simp [renderA1]
+  | .inert t e, h, buf, stk, rest => by
+    have h' : t.isInert = true ∧ e.arityOk := by simpa [Expr.arityOk] using h
+    have hn : actOf env chk t = .nop := by
+      cases t <;> simp [Tok.isInert] at h' <;> rfl
+    simp only [toRpn, List.map_append, List.append_assoc, List.map_cons, List.map_nil, List.singleton_append]
+    rw [machine_correct env chk e h'.2, hn]
+    simp [runActs, applyAct, renderA1]
 theorem machine_correctArgs (env : Env) (chk : Bool) : ∀ (args : List Expr), argsOk args →
     ∀ (buf : List Char) (stk : List Nat) (rest : List Act),
     runActs ((toRpnArgs args).map (actOf env chk) ++ rest) ⟨buf, stk⟩ =
